@@ -47,8 +47,8 @@ def invalid_cond(P, n):
     return SymBool(pipeline.validity_regions(c)[1])
 
 
-def body(ctx, conv, shape, bounds, as_coords, nan_cells=None, mesh_opts=None, descending=False, extent=True, bounds_first=False, coord_dtype=None, bounds_coords=False, explicit=False, rotated=False):
-    snap_holder = [coord_dtype]
+def body(ctx, conv, shape, bounds, as_coords, nan_cells=None, mesh_opts=None, descending=False, extent=True, bounds_first=False, coord_dtype=None, bounds_coords=False, explicit=False, rotated=False, raise_first=False):
+    snap_holder = [coord_dtype, raise_first]
     pipeline.builders.BOUNDS_AS_COORDS = bounds_coords
     pipeline.EXPLICIT_NAMES = explicit
     pipeline.ROTATED_AXES = rotated
@@ -68,6 +68,15 @@ def _body(ctx, conv, shape, bounds, as_coords, nan_cells, mesh_opts, descending,
     N = P.ncells
     ctx.note('config', dict(conv=conv, shape=str(shape), bounds=bounds, as_coords=as_coords))
     snap = snapshot(P.ds)
+    if len(snap_holder) > 1 and snap_holder[1]:
+        # a first attempt under a warning filter that turns the invalid-polygon warning into an error (a strict
+        # script): it fails when a cell is invalid; asked again under the normal filter the answers are the right ones
+        with warnings.catch_warnings():
+            warnings.simplefilter('error', InvalidPolygonWarning)
+            try:
+                cv.polygons
+            except InvalidPolygonWarning:
+                pass
     with warnings.catch_warnings(record=True) as caught:
         warnings.simplefilter('always')
         if bounds_first:
@@ -247,6 +256,10 @@ def cases(tier):
         kw = dict(conv=conv, shape=shape, bounds=bounds, as_coords=(bounds == 'none'), nan_cells=() if conv == 'cf1d' else None, explicit=True)
         yield Case(f'{conv}:{shape[0]}x{shape[1]}:{bounds}:explicit-names:extent', body, dict(kw, extent=True),
                    patches=PM['rect' if conv == 'cf1d' else 'all'], max_paths=20000, split=32)
+    for conv, shape, bounds in (('cf2d', (2, 2), 'stored'), ('shoc_simple', (1, 2), 'stored')):
+        kw = dict(conv=conv, shape=shape, bounds=bounds, as_coords=True, nan_cells=None, raise_first=True)
+        yield Case(f'{conv}:{shape[0]}x{shape[1]}:{bounds}:after-a-strict-first-attempt:validity', body, dict(kw, extent=False),
+                   patches=PM['sandwich'], max_paths=20000, split=32, solver=SOLVER)
     # rotated-pole layout: 1-D grid_latitude / grid_longitude axes stored ahead of the true 2-D coordinates
     for conv, shape, bounds, as_coords in (('cf2d', (2, 3), 'stored', True), ('cf2d', (2, 2), 'none', False)):
         kw = dict(conv=conv, shape=shape, bounds=bounds, as_coords=as_coords, nan_cells=None, rotated=True)
